@@ -240,7 +240,7 @@ static void spherical(unsigned long long& unit)
 int main(int argc, char** argv)
 {
 	mc::init(argc, argv);
-	if(mc::ctx().replay) { printf("%s\n", mc::ctx().replay_case.c_str()); return 0; }
+	if(mc::ctx().replay) { printf("%s\n(no single-case replay for this part; use ./vcheck --replay <file>, which re-runs the enumeration for this key)\n", mc::ctx().replay_case.c_str()); return 0; }
 	mc::bound("rule", "complete products: 97 multiples of pi/12 in [-4pi,4pi] + 4 irrational angles x axes (6 coordinate, 8 body-diagonal, 12 face-diagonal, 48 signed permutations of (1,2,3), 24 directions within 1e-12/1e-8/1e-4 of +-z) x 3 lengths; spherical: r x 25 polar x 24 azimuthal x the same axes; every case is one library call checked against long-double geometry");
 	unsigned long long unit = 0;
 	rotations(unit);
